@@ -544,3 +544,22 @@ Qed.
 
 Theorem find_opts_never_raises_lemma : forall om fl, tyid_wf om fl -> exists a, find_opts om fl = Ok a.
 Proof. intros om fl H. destruct (find_opts_spec om fl H) as [at_ [ai [E _]]]. eauto. Qed.
+
+(* ---- all_versions: attached filters apply to these answers too ---- *)
+
+Theorem mem_all_versions_answers_lemma : forall mode data i att comp r o,
+  mem_all_versions mode data i att comp = Ok r -> In o r ->
+  In o (mem_versions data i) /\ forall f, In f (comp ++ att) -> check_filter mode f o = Ok true.
+Proof.
+  intros mode data i att comp r o H Ho. unfold mem_all_versions in H.
+  destruct (apply_filters_answers _ _ _ _ _ H Ho) as [Hin Hh]. split; auto. apply holds_b_true. auto.
+Qed.
+
+Theorem fs_all_versions_answers_lemma : forall mode om t i att comp r o f,
+  no_fuzzy_dups ([mkf t_id OEq i] ++ att ++ comp) ->
+  fs_all_versions mode om t i att comp = Ok r -> In o r ->
+  In f ([mkf t_id OEq i] ++ att ++ comp) -> check_filter mode f o = Ok true.
+Proof.
+  intros mode om t i att comp r o f Hn H Ho Hf. unfold fs_all_versions, fs_query in H.
+  eapply fs_search_answers_hold; eauto. apply complete_query_covers; auto.
+Qed.
